@@ -348,6 +348,8 @@ def binop(ev, op, a, b, node, fr):
         fn = {ast.BitAnd: sp.And, ast.BitOr: sp.Or, ast.BitXor: sp.Xor}[type(op)]
         shape = getattr(a, "shape", None) or getattr(b, "shape", None)
         return Num(fn(ea, eb), kind="bool", shape=shape)
+    if isinstance(op, ast.MatMult):
+        return matmul(ev, a, b, node, fr)
     if isinstance(a, NdArr) or isinstance(b, NdArr):
         return nd_binop(ev, op, a, b, node, fr)
     if isinstance(a, StackV) or isinstance(b, StackV):
@@ -531,6 +533,63 @@ def promote_dtype(da_, db_):
 def raise_value_error(ev, msg, node, fr):
     from .symeval import Raised
     raise Raised("ValueError", node, msg)
+
+
+def _lin_comb(ev, comps, coefs, node, fr):
+    acc = None
+    for c, k in zip(comps, coefs):
+        term = binop(ev, ast.Mult(), c, k, node, fr)
+        acc = term if acc is None else binop(ev, ast.Add(), acc, term, node, fr)
+    return acc
+
+
+def matmul(ev, a, b, node, fr):
+    """x @ M for x with explicit components along its LAST axis and an explicit matrix M; M @ M for explicit matrices."""
+    if isinstance(a, StackV) and isinstance(b, NdArr) and b.ndim == 2:
+        nd = len(a.shape) if a.shape is not None else None
+        if nd is None or a.axis % nd != nd - 1:
+            ev.unsupported("matmul of an array whose explicit components are not on its last axis", node, fr)
+        if b.shape[0] != len(a.items):
+            raise_value_error(ev, f"matmul: mismatch in core dimension ({len(a.items)} vs {b.shape[0]})", node, fr)
+        cols = [[b.items[i * b.shape[1] + j] for i in range(b.shape[0])] for j in range(b.shape[1])]
+        out = StackV([_lin_comb(ev, a.items, col, node, fr) for col in cols], a.axis, a.backend)
+        out.shape = tuple(list(a.shape[:-1]) + [sp.Integer(b.shape[1])])
+        out.dtype = a.dtype
+        return out
+    if isinstance(a, NdArr) and isinstance(b, NdArr) and a.ndim == 2 and b.ndim == 2 and a.shape[1] == b.shape[0]:
+        items = []
+        for i in range(a.shape[0]):
+            for j in range(b.shape[1]):
+                items.append(_lin_comb(ev, [a.items[i * a.shape[1] + k] for k in range(a.shape[1])],
+                                       [b.items[k * b.shape[1] + j] for k in range(b.shape[0])], node, fr))
+        return NdArr((a.shape[0], b.shape[1]), items)
+    ev.unsupported("matmul of these operands", node, fr)
+
+
+def h_tensordot(ev, args, kwargs, fr, node):
+    """np.tensordot(M, x, axes=(i, axis)) for an explicit matrix M and x with explicit components along `axis`:
+    result[j, ...] = sum_k M[k, j] * x_k (i == 0) or sum_k M[j, k] * x_k (i == 1); the free matrix axis comes first."""
+    m, x = args[0], args[1]
+    axes = kwargs.get("axes", args[2] if len(args) > 2 else None)
+    if not (isinstance(m, NdArr) and m.ndim == 2 and isinstance(x, StackV) and isinstance(axes, (TupleV, ListV)) and len(axes.items) == 2):
+        ev.unsupported("np.tensordot of these operands", node, fr)
+    i, ax = ev.concrete_int(axes.items[0]), ev.concrete_int(axes.items[1])
+    nd = len(x.shape) if x.shape is not None else None
+    if i is None or ax is None or nd is None or ax % nd != x.axis % nd:
+        ev.unsupported("np.tensordot contracting an axis without explicit components", node, fr)
+    i %= 2
+    if m.shape[i] != len(x.items):
+        raise_value_error(ev, "tensordot: shape mismatch for sum", node, fr)
+    free = m.shape[1 - i]
+    comps = []
+    for j in range(free):
+        coefs = [m.items[(k * m.shape[1] + j) if i == 0 else (j * m.shape[1] + k)] for k in range(m.shape[i])]
+        comps.append(_lin_comb(ev, x.items, coefs, node, fr))
+    out = StackV(comps, 0, x.backend)
+    rest = [d for k_, d in enumerate(x.shape) if k_ != x.axis % nd]
+    out.shape = tuple([sp.Integer(free)] + rest)
+    out.dtype = x.dtype
+    return out
 
 
 def nd_to_indexed(ev, x: NdArr):
@@ -876,6 +935,8 @@ def val_getattr(ev, obj, name, fr, node):
             return NdArr((len(obj.items),), list(obj.items))
         if name == "dtype":
             return getattr(obj, "dtype", None) or ExtV("numpy.dtype:unknown")
+        if name == "T":
+            return nd_permute(obj, list(reversed(range(obj.ndim))))
         return BoundBuiltin(obj, name)
     if isinstance(obj, SliceV):
         if name in ("start", "stop", "step"):
@@ -968,6 +1029,17 @@ def num_getattr(ev, obj: Num, name, fr, node):
         return obj.dtype if obj.dtype is not None else ExtV("numpy.dtype:unknown")
     if name == "isscalar":
         return BoolV(obj.shape is None or len(obj.shape) == 0)
+    if obj.kind == "time" and name in ("jd1", "jd2", "jd"):
+        # the two-part Julian date *in the object's own time scale*: jd1 + jd2 = instant/day + offset of that scale from the
+        # reference scale (unknown per object: 0 for the same scale, 37 s for TAI vs UTC, ...)
+        days = obj.expr * UNITS["Hz"] / 86400
+        off = F["TimeScaleOffsetDays"](sp.expand(obj.expr * UNITS["Hz"]))
+        whole = F["JD1of"](sp.expand(obj.expr * UNITS["Hz"]))
+        if name == "jd":
+            return Num(days + off, kind="number", shape=obj.shape, axes=obj.axes, isfloat=True)
+        if name == "jd1":
+            return Num(whole, kind="number", shape=obj.shape, axes=obj.axes, isfloat=True)
+        return Num(days + off - whole, kind="number", shape=obj.shape, axes=obj.axes, isfloat=True)
     if obj.kind == "time" and name in ("format", "scale"):
         return OpaqueV("time" + name, obj)       # not tracked: comparisons with a literal are undecided (both arms explored)
     if name == "value":
@@ -1594,6 +1666,17 @@ def nd_setitem(ev, x: NdArr, idx, v, fr, node):
 def h_moveaxis(ev, args, kwargs, fr, node):
     x = args[0]
     src, dst = ev.concrete_int(args[1]), ev.concrete_int(args[2])
+    if isinstance(x, StackV) and x.shape is not None and src is not None and dst is not None:
+        nd = len(x.shape)
+        if src % nd != x.axis % nd:
+            ev.unsupported("np.moveaxis of an axis other than the one holding the explicit components", node, fr)
+        order = list(range(nd))
+        a_ = order.pop(src % nd)
+        order.insert(dst % nd, a_)
+        out = StackV(list(x.items), dst % nd, x.backend)
+        out.shape = tuple(x.shape[i] for i in order)
+        out.dtype = x.dtype
+        return out
     if not isinstance(x, Num) or x.shape is None or src is None or dst is None:
         ev.unsupported("np.moveaxis on an array of unknown rank", node, fr)
     order = list(range(len(x.shape)))
@@ -2917,7 +3000,7 @@ EXT = {
     "dask.array.fft.rfftfreq": lambda ev, a, k, fr, n: h_rfftfreq(ev, a, k, fr, n, backend="dask"),
     "dask.array.fft.fftfreq": lambda ev, a, k, fr, n: h_fftfreq(ev, a, k, fr, n, backend="dask"),
     "numpy.zeros": h_zeros, "numpy.ones": lambda ev, a, k, fr, n: h_zeros(ev, a, k, fr, n, fill=1),
-    "numpy.full": lambda ev, a, k, fr, n: h_full(ev, a, k, fr, n),
+    "numpy.full": lambda ev, a, k, fr, n: h_full(ev, a, k, fr, n), "numpy.tensordot": lambda ev, a, k, fr, n: h_tensordot(ev, a, k, fr, n),
     "numpy.shape": lambda ev, a, k, fr, n: h_np_shape(ev, a, k, fr, n), "numpy.broadcast_shapes": lambda ev, a, k, fr, n: h_broadcast_shapes(ev, a, k, fr, n),
     "numpy.unravel_index": lambda ev, a, k, fr, n: h_unravel_index(ev, a, k, fr, n),
     "numpy.can_cast": lambda ev, a, k, fr, n: h_can_cast(ev, a, k, fr, n),
